@@ -59,3 +59,12 @@ Example C09_ex_bool :
   bool_decode [116; 114; 117] [1]%nat = Value bres BReject 3%nat /\
   decode bst bres bstep batend 20%nat [Piece [116; 114]; Fail] (BSkip true) = ReaderError bres.
 Proof. vm_compute. repeat split. Qed.
+
+(* ---- the entry points that hand out what the stream scanners produced (decode.go, read by the translator) ---- *)
+From GJ Require Import Gen.Resets.
+(* Decoder.DecodeWithOption and Decoder.Token: the statement after the call that runs the scanners returns the reader's
+   error if the reader failed -- before the value or the token the scanners made of the bytes that did arrive is handed
+   out (the number scanners take the end of the window for the end of the number) *)
+Theorem C09_entry_points_look_at_the_reader_error_first :
+  decoder_calls_not_consulting_reader_error = nil /\ decoder_calls_running_the_scanners = 2%nat.
+Proof. split; reflexivity. Qed.
